@@ -54,6 +54,8 @@ Definition chk_wire (flags action : N) (all : bool) (req : list N) (ts : list (N
   | Some u =>
       let strings := flat_map (fun t => match snd t with Some sv => sv | None => [] end) ts in
       let n := (1040 + List.length strings)%nat in
+      (* a well-formed struct audit_rule_data has at most AUDIT_MAX_FIELDS = 64 triples *)
+      (List.length ts <=? 64)%nat &&
       (ur_flags u =? flags) && (ur_action u =? action) && (ur_field_count u =? N.of_nat (List.length ts)) &&
       listN_eqb (ur_fields u) (pad64z (map (fun t => fst (fst (fst t))) ts)) &&
       listN_eqb (ur_fieldflags u) (pad64z (map (fun t => snd (fst (fst t))) ts)) &&
@@ -169,7 +171,8 @@ Inductive outc := OOk | OErr | OWireErr | OPanic | OAlloc.
 Inductive tcase :=
 | TWire (b : str) (o : outc)
 | TBuild (nfilters : N) (o : outc) (built : option str)
-| TLine (line : str) (o : outc).
+| TLine (line : str) (o : outc)
+| TVal (lst f op rhs : str) (o : outc) (built : option str).   (* a SyscallRule with one value filter built directly: -S 1, action always *)
 
 (* structurally valid per the UAPI reader: field count within 64, every string field's
    length inside the buffer, the buffer inside the slice *)
@@ -203,4 +206,15 @@ Definition judge_c13 (c : tcase) : N :=
       | _, _ => 0
       end
   | TLine _ o => match o with OPanic | OAlloc => 2 | _ => 0 end
+  | TVal lst f op rhs o built =>
+      match o with
+      | OPanic | OAlloc => 2
+      | _ =>
+          (* a user or group name is looked up in the system's database: outside the model *)
+          let lookup := match lookupS f fields_table with
+                        | Some fc => if is_string_field fc then false else match parse_value fc rhs with VLookup => true | _ => false end
+                        | None => false end in
+          if lookup then 0
+          else if optb_eqb (option_map to_wire (build_prule (fun _ => false) (PSyscall false lst (s2l "always") [(false, f, op, rhs)] [s2l "1"] []))) built then 0 else 1
+      end
   end.
